@@ -9,13 +9,13 @@ from pjplan.utils import TextTable, GREEN, YELLOW, GREY, RED
 
 
 def _validate_graph_isolation(project: WBS):
-    all_tasks = {task.id: task for task in project.tasks}
+    members = set([id(task) for task in project.tasks])
 
-    for t in all_tasks.values():
+    for t in project.tasks:
         for pr in t.predecessors:
-            if pr.id not in all_tasks and (not pr.start or not pr.end):
+            if id(pr) not in members and (not pr.start or not pr.end):
                 raise RuntimeError(
-                    "Task {t.id} ({t.name}) has predecessor {pr.id} ({pr.name}) w/o dates and outside wbs"
+                    f"Task {t.id} ({t.name}) has predecessor {pr.id} ({pr.name}) w/o dates and outside wbs"
                 )
 
 
@@ -244,11 +244,13 @@ class ForwardScheduler(IScheduler):
             resource_usage: _ResourceUsage,
             calculated: List[int]
     ):
-        if _task.id in calculated:
+        if id(_task) in calculated:
             return
 
         for pred in _task.predecessors:
-            self.__forward_pass(pred, min_date, resource_usage, calculated)
+            # predecessors outside the WBS keep the dates they were given
+            if pred.wbs is _task.wbs:
+                self.__forward_pass(pred, min_date, resource_usage, calculated)
 
         max_predecessor_ends = max([t.end for t in _task.predecessors if t.end is not None] + [min_date])
 
@@ -303,7 +305,7 @@ class ForwardScheduler(IScheduler):
                 else:
                     _task.end = max([t.end for t in _task.children if t.end is not None])
 
-        calculated.append(_task.id)
+        calculated.append(id(_task))
 
     def calc(self, wbs: WBS) -> Schedule:
         _validate_graph_isolation(wbs)
@@ -418,11 +420,13 @@ class BackwardScheduler(IScheduler):
             resource_usage: _ResourceUsage,
             calculated: List[int]
     ):
-        if _task.id in calculated:
+        if id(_task) in calculated:
             return
 
         for pred in _task.successors:
-            self.__backward_pass(pred, min_date, resource_usage, calculated)
+            # successors outside the WBS keep the dates they were given
+            if pred.wbs is _task.wbs:
+                self.__backward_pass(pred, min_date, resource_usage, calculated)
 
         min_successor_starts = min([t.start for t in _task.successors if t.start is not None] + [min_date])
 
@@ -474,7 +478,7 @@ class BackwardScheduler(IScheduler):
             else:
                 _task.start = min([t.start for t in _task.children if t.start is not None])
 
-        calculated.append(_task.id)
+        calculated.append(id(_task))
 
     @staticmethod
     def __prepare_tasks(project: WBS):
